@@ -15,9 +15,6 @@ RULE = ("(a) CellWrapper.fit alone, bounded-exhaustive: 1-3 columns x one row of
         "whenever no cell holding '<' has to be wrapped (observed on the implementation: the cell reaches textwrap); (d) tables "
         "with unbalanced or invalid markup (a tag left open, closed in another cell, an unknown colour): model comparison only; "
         "non-trivial = a table in which at least one cell was wrapped; distinct by (cells, style, width, indentation)")
-THEOREMS = ["fit_total_and_bounded", "render_total", "table_rect", "table_keeps_text", "short_split_leaves_room",
-            "render_f_tag_free", "table_visible_commutes", "table_rect_tagged", "table_keeps_text_tagged",
-            "cell_line_in_its_column"]
 TRUSTED = ["the share int(round(length / actual * available)) is computed in floating point by the code; the model takes the rounding "
            "function as a parameter (theorems hold for every function) and ocaml/driver.ml instantiates it with the same IEEE-double "
            "division, multiplication and round-half-even",
